@@ -89,6 +89,7 @@ type Contract struct {
 	Decl     *ast.FuncDecl // the real function
 	Replay   string
 	NoFrame  bool
+	WithInit  bool     // the package initialisers are executed first, so that package-level tables have their values
 	Exclusive bool     // the function needs exclusive access to its receiver (writes fields that have no lock)
 	Acquires []string // mutexes (Type.field) the function may acquire, transitively
 	Role     string   // goroutine role the function is the body of
@@ -130,7 +131,7 @@ type fieldDiscipline struct {
 	Arg  string
 }
 
-var clauseKW = regexp.MustCompile(`^(func|props|requires|ensures|modifies|loop|label|inline|trusted|pure|import|replay|noframe|field|lockorder|lemma|spec|axiom|at|extern|exclusive|acquires|role)\b`)
+var clauseKW = regexp.MustCompile(`^(func|props|requires|ensures|modifies|loop|label|inline|trusted|pure|import|replay|noframe|field|lockorder|lemma|spec|axiom|at|extern|exclusive|acquires|role|withinit)\b`)
 
 type rawContract struct {
 	header string
@@ -527,6 +528,8 @@ func buildStub(rc *rawContract, file string) (*Contract, string, error) {
 			ct.Pure = true
 		case "noframe":
 			ct.NoFrame = true
+		case "withinit":
+			ct.WithInit = true
 		case "exclusive":
 			ct.Exclusive = true
 		case "acquires":
@@ -843,11 +846,19 @@ func (c *VerifCtx) typeLoopSpec(ct *Contract, ls *LoopSpec, li *loopInfo) error 
 			case *ast.ForStmt:
 				if n == li.ordinal {
 					pos = x.Body.Lbrace + 1
+					if ls.Kind == "step" {
+						// step clauses relate the start and the end of one iteration:
+						// the variables declared in the body are in scope
+						pos = x.Body.Rbrace
+					}
 				}
 				n++
 			case *ast.RangeStmt:
 				if n == li.ordinal {
 					pos = x.Body.Lbrace + 1
+					if ls.Kind == "step" {
+						pos = x.Body.Rbrace
+					}
 				}
 				n++
 			}
